@@ -214,22 +214,26 @@ def check_sequence(r, w, fam):
         ok, got = r.call('crossings', dict(sub0, input='int16 x100'), pc.get_zero_crossings_array_indices, xi16)
         if ok:
             r.expect_ints('crossings.exact', dict(sub0, input='int16 x100'), got, ref.zero_crossings(w, False))
-    # the statement is exact and scale-free: the same pattern at 1e-9 of the amplitude
-    xs = np.array(w, dtype=float) * 1e-9
-    for keep in (False, True):
-        ok, got = r.call('crossings', dict(sub0, input='x1e-9', keep=keep), pc.get_zero_crossings_array_indices, xs, keep_adj_zeros=keep)
+    # the statement is exact and scale-free: the same pattern at 1e-9 of the amplitude, and at amplitudes where the product of two
+    # values under- / overflows (1e-170, 1e300)
+    for stag, sc in (('x1e-9', 1e-9), ('x1e-170', 1e-170), ('x1e300', 1e300)):
+      if stag != 'x1e-9' and n > 5:
+          continue
+      xs = np.array(w, dtype=float) * sc
+      for keep in (False, True):
+        ok, got = r.call('crossings', dict(sub0, input=stag, keep=keep), pc.get_zero_crossings_array_indices, xs, keep_adj_zeros=keep)
         if ok:
-            r.expect_ints('crossings.exact', dict(sub0, input='x1e-9', keep=keep), got, ref.zero_crossings(w, keep))
-    if nonconst:
-        ok, got = r.call('switched', dict(sub0, input='x1e-9'), pc.get_switched_peak_array_indices, xs)
+            r.expect_ints('crossings.exact', dict(sub0, input=stag, keep=keep), got, ref.zero_crossings(w, keep))
+      if nonconst:
+        ok, got = r.call('switched', dict(sub0, input=stag), pc.get_switched_peak_array_indices, xs)
         if ok:
             try:
                 errs = ref.check_switched(w, as_ints(got))
                 r.n_cmp += 1
                 if errs:
-                    r.fail('switched.' + errs[0][0], dict(sub0, input='x1e-9'), errs[0][1], observed=got)
+                    r.fail('switched.' + errs[0][0], dict(sub0, input=stag), errs[0][1], observed=got)
             except Exception as e:
-                r.fail('switched', dict(sub0, input='x1e-9'), 'malformed: %s' % e)
+                r.fail('switched', dict(sub0, input=stag), 'malformed: %s' % e)
     # object-level wrappers on an object whose record is replaced / edited between two queries
     if n <= 5:
         w2 = list(w[::-1])
